@@ -9,7 +9,7 @@
    account, `a_pol` the protocol-owned-liquidity account; the balance statements are for registrants
    other than these two (nobody holds their keys). *)
 From Coq Require Import ZArith NArith List Bool Lia.
-From JK Require Import Base.Dec Base.AList Base.Bytes Model.RnsReg Proofs.RnsRegProofs.
+From JK Require Import Base.Dec Base.AList Base.Bytes Model.RnsReg Proofs.RnsRegProofs Proofs.RnsInitProofs.
 Import ListNotations.
 Open Scope Z_scope.
 
@@ -194,6 +194,56 @@ Theorem C16_supply_conserved :
 Proof. exact supply_run. Qed.
 Print Assumptions C16_supply_conserved.
 
+(* ---------- MsgInit, the other handler that writes name records ---------- *)
+
+(* an initialisation never takes, re-assigns or shortens a name that is live at its height, costs
+   nothing, never panics, and a refused one changes nothing *)
+Theorem C16_init_leaves_live_names_alone :
+  forall s op k w,
+    lookup s k = Some w -> i_height op < n_expires w -> lookup (snd (init_name s op)) k = Some w.
+Proof. exact init_live_names_keep_owner. Qed.
+Print Assumptions C16_init_leaves_live_names_alone.
+
+Theorem C16_init_is_free_and_total :
+  forall s op o s', init_name s op = (o, s') ->
+    s_bank s' = s_bank s /\ o <> Panic /\ (o <> Ok -> s' = s).
+Proof.
+  intros s op o s' R. split; [|split].
+  - pose proof (init_bank s op) as B. rewrite R in B. exact B.
+  - pose proof (init_never_panics s op) as P. rewrite R in P. exact P.
+  - intros N. exact (init_not_ok_noop s op o s' R N).
+Qed.
+Print Assumptions C16_init_is_free_and_total.
+
+(* a paid term is honoured along every later history of registration attempts AND initialisations by
+   anybody: before h + Y*blocks_per_year the name stays the registrant's and its expiry never moves back *)
+Theorem C16_paid_term_honoured_among_initialisations :
+  forall acc s op s1 idx len t ops,
+    wf s -> valid_height (o_height op) ->
+    register acc s op = (Ok, s1) -> o_parse op = Some (idx, len, t) ->
+    Forall (fun o => valid_height (hop_height o) /\ hop_height o < o_height op + o_years op * blocks_per_year) ops ->
+    exists w, lookup (hrun acc s1 ops) idx = Some w /\ n_owner w = o_sender op /\
+              o_height op + o_years op * blocks_per_year <= n_expires w.
+Proof. exact hregistration_protected. Qed.
+Print Assumptions C16_paid_term_honoured_among_initialisations.
+
+(* ... and so is the free term an initialisation hands out *)
+Theorem C16_initial_name_kept_for_its_term :
+  forall acc s op s1 ops,
+    wf s -> valid_height (i_height op) -> i_height op + init_term <= MAX ->
+    init_name s op = (Ok, s1) ->
+    Forall (fun o => valid_height (hop_height o) /\ hop_height o < i_height op + init_term) ops ->
+    exists idx w, i_name op = Some idx /\ lookup (hrun acc s1 ops) idx = Some w /\ n_owner w = i_sender op /\
+                  i_height op + init_term <= n_expires w.
+Proof. exact hinit_protected. Qed.
+Print Assumptions C16_initial_name_kept_for_its_term.
+
+Theorem C16_invariants_preserved_among_initialisations :
+  forall acc ops s,
+    wf s -> Forall (fun o => valid_height (hop_height o)) ops -> wf (hrun acc s ops).
+Proof. exact hrun_wf. Qed.
+Print Assumptions C16_invariants_preserved_among_initialisations.
+
 (* ---------- non-vacuity: concrete states and histories ---------- *)
 
 Definition ex_acc : accts := {| a_mod := 50; a_pol := 51 |}%N.
@@ -246,3 +296,14 @@ Example C16_ex_bad_years :
   map (fun y => fst (register ex_acc ex_state (ex_op 2 y 20000000))) [-1; 0; 2 ^ 40; 2 ^ 62; 72942115416262309]
   = [Fail; Fail; Fail; Fail; Fail].
 Proof. vm_compute. reflexivity. Qed.
+
+(* initialisations: at height 700 account 2 is handed name 9 until 700 + 5733818; a second account
+   initialising in the same block is refused and the first keeps the name *)
+Definition ex_init (who : N) (h : Z) : init_op :=
+  {| i_basic_ok := true; i_fresh := true; i_name := Some 9%N; i_sender := who; i_data := 3%N; i_height := h |}.
+Example C16_ex_init :
+  let '(o, s') := init_name ex_state (ex_init 2 700) in
+  o = Ok /\ (exists w, lookup s' 9%N = Some w /\ n_owner w = 2%N /\ n_expires w = 5734518) /\
+  fst (init_name s' (ex_init 1 700)) = Fail /\
+  fst (init_name ex_state {| i_basic_ok := true; i_fresh := true; i_name := Some 1%N; i_sender := 2%N; i_data := 3%N; i_height := 700 |}) = Fail.
+Proof. vm_compute. split; [reflexivity|]. split; [eexists; repeat split; reflexivity|]. split; reflexivity. Qed.
